@@ -79,7 +79,7 @@ func (r *bucketRegistry) unregisterBucket(bucket *Bucket) {
 	defer r.lock.Unlock()
 
 	bucketCount := r.bucketCount[name]
-	if bucketCount < 0 {
+	if bucketCount == 0 { // (the count is unsigned: decrementing it here would wrap around)
 		warn("unregisterBucket couldn't find %v", bucket)
 		return
 	}
